@@ -29,3 +29,21 @@ pub fn op_strict(case: &Value, dir: &Path) -> Value {
     }
     json!({"r": "MULTI", "runs": out})
 }
+
+/// output kind `probe` of op `run`: which of the probe commodities `get_commodity` knows after the load and,
+/// per probe account, in which of them `get_txn_account` (the report-side lookup) finds the account.
+/// Answer: `{"comms": "0110…", "accts": ["0100…", …]}`.
+pub fn probe(case: &Value, settings: &tackler_core::kernel::Settings) -> Value {
+    use crate::util::strs;
+    use tackler_core::verif_hooks as vh;
+    let p = case.get("probe").cloned().unwrap_or(json!({}));
+    let accts = strs(&p, "accounts").unwrap_or_default();
+    let comms = strs(&p, "commodities").unwrap_or_default();
+    let bit = |b: bool| if b { '1' } else { '0' };
+    let known: String = comms.iter().map(|c| bit(settings.get_commodity(c).is_ok())).collect();
+    let rows: Vec<Value> = accts
+        .iter()
+        .map(|a| Value::String(comms.iter().map(|c| bit(vh::settings_knows_txn_account(settings, a, c))).collect()))
+        .collect();
+    json!({"comms": known, "accts": rows})
+}
